@@ -1433,6 +1433,10 @@ class C03(Prop):
             clause = st.split(" ")[0] if st in ("panic", "abort") else "err:" + (st.split(" ")[1] if " " in st else st)
             v = viol("C03", h, k, info, clause, {"got": h.real[k][:200]},
                      model_same=(fm is not None and fm["status"] == st))
+            if fm is not None and fm.get("site") and "position diverges" in fm["site"]:
+                # the model's stepping loop ran to its idle fuel: no active channel and a position that moves away from
+                # end_idx (witness class of finding D17)
+                v["class"] = "fixed-in:diverging-idle-loop"
             out.append(v)
             break
         return out
